@@ -17,5 +17,9 @@ def run(chk):
     # cross-device and fan-out cases, and every function on both backends against the same finite differences
     from props.C01 import grad_oracle
     grad_oracle(chk, 2 if chk.tier == "quick" else 20)
+    from props import C17 as _c17
+    _c17.run_backend_parity(chk, 6 if chk.tier == "quick" else 80, 25)     # same seed, same random history, same answers
+    from props import _state
+    _state.run_alloc_refused(chk)    # a request the allocator refuses: the same primitiv::Error on both backends
     _compose.finish(chk)
     chk.trusted += ["agreement 'up to float32 rounding' on general float inputs is measured, not proved; CUDA/OpenCL backends cannot be built here"]
